@@ -284,23 +284,21 @@ func runFOUNDCHECK(c *Ctx) {
 		return trueMeansEqual, n > 0
 	}
 	equalFact := func(b *ssa.BasicBlock) bool {
-		for _, f := range ir.FactsAt(b) {
+		// also when the comparison sits, unchanged, in a private helper whose outcome is tested here (foundhelper_util.go)
+		return heldThroughHelpers(c, ir.FactsAt(b), identityBind, func(f ir.Fact, _ bindFn) bool {
 			if tme, ok := equalHelper(f.Cond); ok && f.Truth == tme {
 				return true
 			}
 			bin, ok := f.Cond.(*ssa.BinOp)
 			if !ok {
-				continue
+				return false
 			}
 			k, isK := ir.ConstInt(bin.Y)
 			if !isK || k != 0 || !isCmp(bin.X) {
-				continue
+				return false
 			}
-			if (bin.Op == token.EQL && f.Truth) || (bin.Op == token.NEQ && !f.Truth) {
-				return true
-			}
-		}
-		return false
+			return (bin.Op == token.EQL && f.Truth) || (bin.Op == token.NEQ && !f.Truth)
+		}, 0)
 	}
 	for _, name := range []string{"(*Mast).Get", "findEntry"} {
 		fn := c.MustFunc(name)
@@ -335,21 +333,22 @@ func runFOUNDCHECK(c *Ctx) {
 			if name == "findEntry" {
 				// Delete(key, value) removes the entry only if the stored value matches: the found return is
 				// also dominated by DeepEqual(stored value, the value parameter) having come out true
-				valOK := false
-				for _, f := range ir.FactsAt(r.Block()) {
+				// (also inside a private helper handed that parameter: foundhelper_util.go)
+				valOK := heldThroughHelpers(c, ir.FactsAt(r.Block()), identityBind, func(f ir.Fact, bind bindFn) bool {
 					call, ok := f.Cond.(*ssa.Call)
 					if !ok || !f.Truth {
-						continue
+						return false
 					}
 					if sc := ir.Callee(call.Call); sc == nil || sc.String() != "reflect.DeepEqual" {
-						continue
+						return false
 					}
 					for _, a := range call.Call.Args {
-						if p, isP := ir.ResolveCell(ir.Strip(a)).(*ssa.Parameter); isP && p.Parent() == fn {
-							valOK = true
+						if p, isP := bind(a).(*ssa.Parameter); isP && p.Parent() == fn {
+							return true
 						}
 					}
-				}
+					return false
+				}, 0)
 				if valOK {
 					c.OK(P.InstrPos(r), "'found' result of "+name+": value", "dominated by DeepEqual(stored value, value argument) == true", false)
 				} else {
